@@ -7,11 +7,14 @@ package proxy
 
 // C01 (proxy): the request is forwarded (ReverseProxy.ServeHTTP) only when no pipeline error is
 // recorded and an upstream is defined.
+// C12: see decision.requestContext.Finalize - a recorded WWW-Authenticate challenge has to be put on
+// the response when the pipeline error is handed back
 //@ func (*requestContext).Finalize
-//@   props C01
+//@   props C01 C12
 //@   ensures old(r.RequestContext.err) != nil ==> ret0 == old(r.RequestContext.err) && rproxy.n == old(rproxy.n)
 //@   ensures old(r.RequestContext.err) == nil && upstream == nil ==> ret0 != nil && rproxy.n == old(rproxy.n)
 //@   ensures old(r.RequestContext.err) == nil && upstream != nil ==> rproxy.n == old(rproxy.n) + 1
+//@   ensures old(r.RequestContext.err) != nil && headerGet(old(r.RequestContext.upstreamHeaders), "WWW-Authenticate", old(hver)) != "" ==> hset.n > old(hset.n)
 
 // C12: a failed upstream exchange is a communication error (502), whatever the cause
 //@ func (*requestContext).Finalize$1
